@@ -8,19 +8,20 @@ open IrVerif.Layout
 #print axioms C07_first_at_zero
 #print axioms C07_shards_partition
 #print axioms C07_shard_limit
-#print axioms C07_shards_partition_st
-#print axioms C07_shard_limit_st
-#print axioms C07_D62_witness
 #print axioms C07_readback
 #print axioms C07_readback_layout
-#print axioms C07_image_order_independent
-#print axioms C07_filename_inj
-#print axioms C07_filename_parts
-#print axioms C07_threshold
-#print axioms C07_threshold_st
-#print axioms C07_placement_shard
+#print axioms C07_shards_partition_st
+#print axioms C07_shard_limit_st
 #print axioms C07_model_restored
-#print axioms C07_mid_is_repointed
+#print axioms C07_image_order_independent
 #print axioms C07_roundtrip
 #print axioms C07_dataFiles_schedule
 #print axioms C07_filename_dir
+#print axioms C07_filename_inj
+#print axioms C07_filename_ne_base
+#print axioms C07_filename_parts
+#print axioms C07_threshold
+#print axioms C07_threshold_st
+#print axioms C07_roundtrip_value
+#print axioms C07_serialize_sees_unloaded
+#print axioms C07_placement_shard
